@@ -1,13 +1,15 @@
 (* C06 — Equal decides structural equality (v5).
-   DOMAIN: every theorem below about texts needs tnodup: the texts have no repeated member name in any
-   object (C06_equal_spec asks it of whatever the two texts parse to; C06_node_equal asks nwf of the
-   nodes, which contains it).  With a repeated name Equal follows Go-map semantics: decoding into a
-   map keeps the LAST value of the name, so Equal compares the deduplicated values; jeq on den (an
-   association list with the repetition still in it) does not express that, and reflexivity,
-   symmetry and transitivity are not proved for such texts.  There the correspondence judges Equal
-   on every run against jeq of the DEDUPLICATED values (last occurrence wins).
-   C06_malformed_false and C06_null_only_null need no such hypothesis. *)
+   The theorems come in two groups.  (1) For texts without repeated member names (tnodup) Equal is
+   jeq of the denoted values (C06_equal_spec, C06_reflexive, C06_symmetric, C06_transitive).
+   (2) For ALL texts (EqualDup.v): with a repeated name Equal follows Go-map semantics — decoding into
+   a map keeps the LAST value of the name — so Equal is jeq of the DEDUPLICATED values
+   (C06_equal_spec_all), and it is reflexive on every well-formed text, symmetric and transitive on
+   all byte strings (C06_reflexive_all, C06_symmetric_all, C06_transitive_all); dedup is the identity
+   on values without repeated names (C06_dedup_id), so group (1) is the special case.  The
+   correspondence judges Equal on every run against jeq of the deduplicated values (the same dedup).
+   C06_malformed_false and C06_null_only_null need no hypothesis. *)
 From JP Require Import Bytes Json Text Strings Den ImplV5 JsonFacts Abs EqualFacts ParseFacts.
+From JP Require EqualDup.
 
 (* the comparison of two nodes in ANY parse state (raw, half parsed, fully parsed) is structural
    equality of the values they denote *)
@@ -85,4 +87,51 @@ Example C06_nonvacuous :
   api_equal (B " {""a"":[null,{""x"":""é"",""y"":1.0}],""b"":null} ") (B "{""b"":null,""a"":[null,{""y"":1.0,""x"":""é""}]}") = true /\
   api_equal (B "{""a"":null}") (B "{}") = false /\ api_equal (B "[null]") (B "[]") = false /\
   api_equal (B "{""a"":1}") (B "{""a"":1}x") = false.
+Proof. vm_compute. repeat split; reflexivity. Qed.
+
+(* ---- all texts, repeated member names included (Go-map semantics: the last value of a name) ---- *)
+Theorem C06_equal_all : forall a b ta tb,
+  parse a = Some ta -> parse b = Some tb ->
+  api_equal a b = jeq (EqualDup.dedup (den ta)) (EqualDup.dedup (den tb)).
+Proof. exact EqualDup.api_equal_dedup. Qed.
+Print Assumptions C06_equal_all.
+
+Theorem C06_equal_spec_all : forall a b,
+  api_equal a b = true <->
+  exists ta tb, parse a = Some ta /\ parse b = Some tb /\
+                jeq (EqualDup.dedup (den ta)) (EqualDup.dedup (den tb)) = true.
+Proof. exact EqualDup.equal_spec_dedup. Qed.
+Print Assumptions C06_equal_spec_all.
+
+Theorem C06_dedup_id : forall j, onodup j = true -> EqualDup.dedup j = j.
+Proof. exact EqualDup.dedup_id. Qed.
+Print Assumptions C06_dedup_id.
+
+Theorem C06_dedup_is_a_map : forall j, onodup (EqualDup.dedup j) = true.
+Proof. exact EqualDup.dedup_onodup. Qed.
+Print Assumptions C06_dedup_is_a_map.
+
+Theorem C06_reflexive_all : forall a ta, parse a = Some ta -> api_equal a a = true.
+Proof. exact EqualDup.equal_reflexive_all. Qed.
+Print Assumptions C06_reflexive_all.
+
+Theorem C06_symmetric_all : forall a b, api_equal a b = api_equal b a.
+Proof. exact EqualDup.equal_symmetric_all. Qed.
+Print Assumptions C06_symmetric_all.
+
+Theorem C06_transitive_all : forall a b c, api_equal a b = true -> api_equal b c = true -> api_equal a c = true.
+Proof. exact EqualDup.equal_transitive_all. Qed.
+Print Assumptions C06_transitive_all.
+
+(* the node-level statement in ANY parse state, without the no-repetition demand on raw parts *)
+Theorem C06_node_equal_all : forall n o,
+  EqualDup.nwfd n -> nlit n -> EqualDup.nwfd o -> nlit o ->
+  node_equal n o = jeq (EqualDup.dedup (aval n)) (EqualDup.dedup (aval o)).
+Proof. exact EqualDup.node_equal_dspec. Qed.
+Print Assumptions C06_node_equal_all.
+
+Example C06_repeated_names :
+  api_equal (B "{""a"":1,""a"":2}") (B "{""a"":2}") = true /\
+  api_equal (B "{""a"":1,""a"":2}") (B "{""a"":1}") = false /\
+  api_equal (B "{""a"":1,""a"":null}") (B "{}") = false.
 Proof. vm_compute. repeat split; reflexivity. Qed.
